@@ -530,15 +530,16 @@ example :
      (r.1 == Status.fuel && r.2.1.stepOk == 0 && r.2.1.stepBad == 0 && decide (r.2.1.h < 1/1000000000000))) = true := by
   decide +kernel
 
-/-- `-runge_kutta 1` and a rate `a·TOTAL_TIME` (zero at the start of the step): the model — like the code, see the known finding
-`rk1-equal-rate-test-at-start-time` — leaves through the early exit without reacting anything, while `-runge_kutta 6` transfers
-the exact `a T²/2` -/
+/-- `-runge_kutta 1` and a rate `a·TOTAL_TIME` (zero at the start of the step): since /repo 21ebeca0 the rate at the end of the
+Euler step is evaluated at the end time, differs from the rate at the start, and the step is redone with the full scheme: both
+`-runge_kutta 1` and `-runge_kutta 6` transfer the exact `a T²/2` (before the fix `-runge_kutta 1` left through the early exit
+with nothing reacted) -/
 example :
     (letI := ratOps exFns
      let F : Rat → List Rat → Rat → List Rat := fun t _ h => [t * h / 10000000]
      let r1 := rkKinetics (genParams 0) (fun _ _ => 1) F 0 100 1 1 [1/100000000] [1/100] 500 5
      let r6 := rkKinetics (genParams 0) (fun _ _ => 1) F 0 100 1 6 [1/100000000] [1/100] 500 5
-     (r1.1 == Status.earlyExit && r1.2.2.m == [1/100] && r6.1 == Status.done && r6.2.2.m == [19/2000])) = true := by
+     (r1.1 == Status.done && r1.2.2.m == [19/2000] && r1.2.2.rk == 3 && r6.1 == Status.done && r6.2.2.m == [19/2000])) = true := by
   decide +kernel
 
 end PhreeqcVerif.C12
